@@ -17,6 +17,7 @@ OBLIGATIONS.append(ob('C14.format.precedence', 'verif_frag::sizefmt::c14_format_
 for u in ['none', 'b', 'k', 'kib', 'kb', 'm', 'mib', 'mb', 'g', 'gib', 'gb', 't', 'tib', 'tb']:
     OBLIGATIONS.append(ob(f'C14.format.grid.{u}', f'verif_frag::sizefmt::c14_format_grid_{u}', f'option table of format_filesize (verbatim, shim humansize), unit `{u}` under every subset of the flags c, d, s that holds at most one base flag: the unit fixes FixedAt, d selects the 1000-based base, otherwise c the conventional one, otherwise the spelling of the unit; s leaves the options alone; an explicit precision is kept', units=['sizefmt'], complete=False, bound='6 flag subsets (c and d together are not documented; flags written in the order c d s in front of the unit), precision 0..3 explicit'))
 OBLIGATIONS.append(ob('C14.format.text', 'verif_frag::sizefmt::c14_format_unit_text', 'format_filesize after the rendering call (verbatim, humansize answered by a stand-in): the 1000-based kilo unit is written KB, binary units are kept, and the flag `s` shortens every unit - KiB, kB/KB, MiB, MB, GiB, GB - to its first letter (8 renderings)', units=['sizefmt'], complete=False, bound='8 concrete renderings'))
+OBLIGATIONS.append(ob('C14.format.text.large', 'verif_frag::sizefmt::c14_format_unit_text_large', 'format_filesize after the rendering call (verbatim, humansize answered by a stand-in): s shortens TB / TiB / PB / PiB / EB / EiB to the first letter, without s the unit text is kept, and a rendering without a space is treated alike (13 renderings)', units=['sizefmt'], complete=False, bound='13 concrete renderings'))
 CANARIES = [dict(harness=FS + 'canary_filesize_must_fail', units=['filesize']), dict(harness=UM + 'canary_utilmod_must_fail', units=['utilmod']), dict(harness='verif_frag::sizefmt::canary_sizefmt_must_fail', units=['sizefmt'])]
 ASSUMPTIONS = ['std: to_ascii_lowercase, replace(" ", ""), ends_with, slicing and str::parse::<f64>/<u64> behave as documented (T2)',
                'letter case: the ladder runs on the lower-cased literal (prologue checked by shape)']
